@@ -447,6 +447,10 @@ class Exec:
             env[(a.asname or a.name).split(".")[0]] = ModRef(a.name if a.asname else a.name.split(".")[0])
 
     def st_ImportFrom(self, s, env, fr):
+        if getattr(s, "level", 0):
+            # relative import inside a function: resolve against the package of the module being executed
+            pkg = fr.info.modname.split(".")[:-s.level]
+            s = ast.ImportFrom(module=".".join(pkg + ([s.module] if s.module else [])), names=s.names, level=0)
         for a in s.names:
             r = self.ctx.repo.resolve(s.module, a.name) if self.ctx.repo.has_module(s.module or "") else None
             if r is None and self.ctx.repo.has_module(f"{s.module}.{a.name}"):
@@ -1457,7 +1461,14 @@ class Exec:
         for item in it[1]:
             e2 = dict(env)
             self.assign(g.target, item, e2, fr)
-            out[self.eval(n.key, e2, fr)] = self.eval(n.value, e2, fr)
+            ok = True
+            for cond in g.ifs:
+                c = truth(self.eval(cond, e2, fr))
+                if not isinstance(c, bool):
+                    raise Unsupported("dict comprehension filter on a symbolic condition")
+                ok = ok and c
+            if ok:
+                out[self.eval(n.key, e2, fr)] = self.eval(n.value, e2, fr)
         return out
 
     def ev_Starred(self, n, env, fr):
@@ -2014,6 +2025,9 @@ class Exec:
                 raise Unsupported(f"method .{name}() may mutate a record object at {loc_of(fr, n)}")
             from .objmodels import as_opt
             return self.abs_apply("meth:" + name, [as_opt(obj.ident, obj.cls)] + list(args), kwargs)
+        if type(obj).__name__ == "SuperProxy" and self.abstract and name not in self._MUTATING and not name.startswith("set"):
+            # a base-class (xarray) method this engine has no model for: an uninterpreted function of the object and the arguments
+            return self.abs_apply("meth:super." + name, [obj.obj] + list(args), kwargs)
         if isinstance(obj, Opaque) and self.abstract:
             if name in self._MUTATING or name.startswith("set"):
                 raise Unsupported(f"method .{name}() may mutate an abstract object at {loc_of(fr, n)}")
